@@ -103,7 +103,9 @@ func main() {
 	if st, err := os.Stat(*out); err == nil && !st.IsDir() {
 		die("-out %s exists and is not a directory", *out)
 	}
-	load := func(rel string) *astx.File { return astx.Load(filepath.Join(*repo, filepath.FromSlash(rel)), "/repo/"+rel) }
+	load := func(rel string) *astx.File {
+		return astx.Load(filepath.Join(*repo, filepath.FromSlash(rel)), "/repo/"+rel)
+	}
 
 	intertxMod := filepath.Join(*repo, "x", "intertx", "go.mod")
 	ibcVer := astx.ModVersion(intertxMod, ibcModule)
